@@ -55,6 +55,7 @@ def run(ctx):
   pitch_class_wraps_both_ways(ctx)
   bass_is_min_over_all_pitches(ctx)
   modification_table_roles(ctx)
+  alteration_accumulates(ctx)
   pitfalls.apply(ctx, 'PITFALL', [fi for q, fi in sorted(mi.all_functions.items()) if '.' not in q], ['falsy-zero', 'misaligned-index', 'previous-wraps'], {
       'previous-wraps': 'the amount left over for the accidental is then reduced by a whole octave\'s worth of steps: the root / bass is spelled on the wrong letter (Db comes out as C)',
       'misaligned-index': 'the root written into the chord symbol is then not the root the chosen kind was found for: the named chord does not contain the supplied pitches',
@@ -741,6 +742,51 @@ def modification_table_roles(ctx, rule='TAB/modification-roles'):
     ctx.ob(rule, mi, v, ok, '%r -> %s, %+d' % (key, got_fn, alter) if ok else
            'the prefix %r is read by %s with alteration %s, not by %s with %+d: what the writer spells "(%s7)" / "(%s9)" is read back as another set of degrees' % (
                key, got_fn, got_alter, want_fn[stem], alter, key, key), construct='_DEGREE_MODIFICATIONS[%r]' % key, definite=True)
+
+
+def alteration_accumulates(ctx, rule='ALTER/accumulates'):
+  """"(b5)" on a chord whose fifth is already diminished, "(#9)" after "(b9)": the altering reader *adds* its alteration to what the
+  degree already carries; only an absent degree is set.  In the function the bare accidentals dispatch to, some store into
+  `degrees[...]` must read the old value (`+=`, or a right-hand side that reads `degrees[...]` / `degrees.get(...)`); when every
+  store there is a plain overwrite, an alteration of an altered degree forgets the earlier one."""
+  mi = ctx.P.module('chord_symbols_lib')
+  node = mi.assigns['_DEGREE_MODIFICATIONS'][0]
+  cons = 'an alteration adds to the alteration the degree already has'
+  names = set()
+  if isinstance(node, ast.Dict):
+    for k, v in zip(node.keys, node.values):
+      if isinstance(k, ast.Constant) and k.value in ('#', 'b') and isinstance(v, ast.Tuple) and v.elts and isinstance(v.elts[0], ast.Name):
+        names.add(v.elts[0].id)
+  fis = [mi.functions[n] for n in sorted(names) if n in mi.functions]
+  if not fis:
+    why = 'cannot classify: the function the bare accidentals dispatch to was not found'
+    ctx.ob(rule, mi, node, False, why, construct=cons, unknown=why)
+    return
+  for fi in fis:
+    fn = fi.node
+    params = [a.arg for a in fn.args.args]
+    if not params:
+      continue
+    d = params[0]
+    def reads_old(e):
+      return any((isinstance(x, ast.Subscript) and isinstance(x.value, ast.Name) and x.value.id == d) or
+                 (isinstance(x, ast.Call) and isinstance(x.func, ast.Attribute) and isinstance(x.func.value, ast.Name) and x.func.value.id == d) for x in ast.walk(e))
+    plain, acc = [], []
+    for st in U.walk_stmts(fn):
+      if isinstance(st, ast.AugAssign) and isinstance(st.target, ast.Subscript) and isinstance(st.target.value, ast.Name) and st.target.value.id == d:
+        acc.append(st)
+      elif isinstance(st, ast.Assign) and any(isinstance(t, ast.Subscript) and isinstance(t.value, ast.Name) and t.value.id == d for t in st.targets):
+        (acc if reads_old(U.expand_locals(fn, st.value, at=st)) else plain).append(st)
+    other = [x for x in ast.walk(fn) if isinstance(x, ast.Call) and isinstance(x.func, ast.Attribute) and isinstance(x.func.value, ast.Name) and x.func.value.id == d and
+             x.func.attr in ('update', 'setdefault', '__setitem__')] or [x for x in ast.walk(fn) if isinstance(x, ast.Call) and any(isinstance(a, ast.Name) and a.id == d for a in x.args)]
+    if acc:
+      ctx.ob(rule, fi, acc[0], True, '`%s` reads the old alteration' % norm_text(acc[0])[:60], construct=cons)
+    elif plain and not other:
+      ctx.ob(rule, fi, plain[0], False, 'every store into %s[...] in %s is a plain overwrite (`%s`): altering a degree that is already altered - "(b5)" on a diminished chord, "(#9)" after "(b9)" - '
+             'forgets the alteration it had, and the symbol names other pitches than its parts say' % (d, fi.name, norm_text(plain[0])[:60]), construct=cons, definite=True)
+    else:
+      why = 'cannot classify: %s does not store into %s[...] directly' % (fi.name, d)
+      ctx.ob(rule, fi, fn, False, why, construct=cons, unknown=why)
 
 
 def bass_is_min_over_all_pitches(ctx, rule='SHAPE/bass-over-all-pitches'):
